@@ -31,13 +31,33 @@ var jarNames = []struct{ name, path string }{
 }
 
 var jarHosts = []string{"h1.test", "h2.test", "h1.test:8080", "h2.test:9090", "h3.test:8080", "h3.test"}
+
+// IPv6 literals that differ only in the last group, with and without port: the brackets contain
+// colons, so a host key cut at "the last colon" instead of by the host:port grammar merges them.
+var jarHosts6 = []string{"[2001:db8::a]", "[2001:db8::b]", "[2001:db8::a]:8080", "[2001:db8::b]:9090", "[::1]", "[::2]"}
 var jarReqPaths = []string{"/", "/a", "/a/b", "/ab", "/b", "/a/b/c", "/a/"}
 
+// hostName is the host without port; an IPv6 literal keeps its address only ("[::1]:80" and
+// "[::1]" are both "::1").
 func hostName(h string) string {
+	if strings.HasPrefix(h, "[") {
+		if i := strings.IndexByte(h, ']'); i > 0 {
+			return h[1:i]
+		}
+	}
 	if hn, _, err := net.SplitHostPort(h); err == nil {
 		return hn
 	}
 	return h
+}
+
+func isV6(h string) bool { return strings.HasPrefix(h, "[") }
+
+func hostHasPort(h string) bool {
+	if isV6(h) {
+		return strings.Contains(h, "]:")
+	}
+	return strings.Contains(h, ":")
 }
 
 const (
@@ -224,9 +244,13 @@ func (s *jarSpec) judge(now time.Time, host, path string, got []retCookie, wire 
 			switch {
 			case why == "superseded":
 				cls := "other" + ctx()
-				if lv := s.live[hn+"\x00"+r.Name]; w.host != w.hostname || (lv != nil && lv.w.host != lv.w.hostname) {
+				lv := s.live[hn+"\x00"+r.Name]
+				switch {
+				case isV6(host) && (hostHasPort(w.host) != hostHasPort(host) || (lv != nil && hostHasPort(lv.w.host) != hostHasPort(host))):
+					cls = "host-with-port|ipv6-literal"
+				case !isV6(host) && (hostHasPort(w.host) || (lv != nil && hostHasPort(lv.w.host))):
 					cls = "host-with-port"
-				} else if s.respUpd[hn+"\x00"+r.Name] {
+				case s.respUpd[hn+"\x00"+r.Name]:
 					cls = "after-response-update-of-existing"
 				}
 				out = append(out, jarFinding{"jar|stale-value|" + cls, "Get returned a value that a later write for the same host and name replaced", r})
@@ -299,7 +323,10 @@ func (s *jarSpec) judge(now time.Time, host, path string, got []retCookie, wire 
 			// the reversed prefix test alone explains this one, whatever else is true of the cookie
 			out = append(out, jarFinding{"jar|path-prefix-reversed", fmt.Sprintf("cookie with path %q withheld for request path %q", w.ck.Path, path), retCookie{w.ck.Name, w.ck.Value, w.ck.Path}})
 			continue
-		case w.host != w.hostname:
+		case isV6(host) && hostHasPort(w.host) != hostHasPort(host):
+			// "[::1]:80" and "[::1]" are the same host
+			cls = "host-with-port|ipv6-literal"
+		case !isV6(host) && hostHasPort(w.host):
 			cls = "host-with-port"
 		case s.respUpd[k]:
 			cls = "after-response-update-of-existing"
@@ -392,6 +419,13 @@ func genJarHistory(r *gen.Rand) []jarOp {
 	n := r.Range(4, 14)
 	// most histories concentrate on two or three hosts so that operations meet
 	hosts := append([]string(nil), jarHosts...)
+	if r.Chance(1, 4) {
+		// a history among IPv6 literals (one in four), sometimes mixed with a name
+		hosts = append([]string(nil), jarHosts6...)
+		if r.Chance(1, 3) {
+			hosts = append(hosts, "h1.test")
+		}
+	}
 	gen.Shuffle(r, hosts)
 	hosts = hosts[:r.Range(2, 4)]
 	var ops []jarOp
